@@ -138,16 +138,30 @@ def sub_agree(case):
 
 
 # ------------------------------------------------------------------------------ ceremonies
+# options of the spend being handed around: they change locktime / sequence / version, which every hand-off form must carry
+CREATE_OPTS = {'default': {}, 'locktime': {'locktime': 650000}, 'rbf': {'replace_by_fee': True},
+               'no_fee_sniping': {}}      # wallet attribute anti_fee_sniping = False on the creating wallet: locktime 0
+
 def _templates(wt, m, n, seed):
     key = (wt, m, n, seed, os.getpid())
     if key not in _TPL:
         paths = []
         order = list(range(n))
         addr = None
+        cid0 = None
         for h in range(n):
             w, p = _create(wt, m, n, h, order, seed)
-            k = w.get_key()
-            addr = k.address
+            # one outpoint pays ONE script: every wallet records the funding of the address the first wallet handed
+            # out (legacy wallets derive per-cosigner branches and their own default branch may differ)
+            if h == 0:
+                k = w.get_key()
+                cid0 = k.cosigner_id
+                addr = k.address
+            else:
+                k = w.get_key(cosigner_id=cid0) if wt == 'legacy' else w.get_key()
+                if k.address != addr:
+                    raise RuntimeError('cosigner wallets disagree on the funded address (see sub-space agree): %s %s'
+                                       % (k.address, addr))
             w.utxo_add(k.address, 100000, wh.utxo_txid(seed, 77), 0, confirmations=5)
             wh.close(w, None, remove=False)
             paths.append(p)
@@ -179,7 +193,11 @@ def sub_ceremony(case):
             try:
                 if t is None:
                     with wh.ForcedRandom(None, 'uniform', 'identity'):
-                        t = wj.transaction_create([(wh.external_address(9)[0], 40000)], fee=3000, min_confirms=0)
+                        if cfg.get('create') == 'no_fee_sniping':
+                            wj.anti_fee_sniping = False
+                        t = wj.transaction_create([(wh.external_address(9)[0], 40000)], fee=3000, min_confirms=0,
+                                                  **CREATE_OPTS[cfg.get('create', 'default')])
+                    created = (t.locktime, t.version_int, [i.sequence for i in t.inputs])
                     t.sign()
                 else:
                     if form == 'raw' and len(set(signers)) < m and signers:
@@ -191,6 +209,11 @@ def sub_ceremony(case):
                     elif form == 'raw':
                         t = wj.transaction_import_raw(t.raw_hex())
                     t.sign()
+                    now = (t.locktime, t.version_int, [i.sequence for i in t.inputs])
+                    if now != created and not any(d['sig'].startswith('handoff|') for d in devs):
+                        devs.append({'sig': 'handoff|fields_of_the_spend_changed_by_import|%s|%s|%s' % (
+                            form, cfg.get('create', 'default'), wt),
+                            'detail': {'created_locktime_version_sequences': created, 'after_import': now}})
                 signers.append(j)
                 label = 'signed'
             except (WalletError, TransactionError) as e:
@@ -291,6 +314,11 @@ def run(ctx):
             # signs again / an extra cosigner after the threshold)
             ln = min(n, m + 1) + (0 if q else 1)
             cer.append(({'wt': wt, 'm': m, 'n': n, 'seed': seed, 'forms': forms, 'max_len': ln}, ln))
+    for wt in wts:
+        for opt in ('locktime', 'rbf', 'no_fee_sniping'):
+            if q and (wts.index(wt) + ['locktime', 'rbf', 'no_fee_sniping'].index(opt)) % 3:
+                continue        # quick: each option on one witness type, each witness type with one option
+            cer.append(({'wt': wt, 'm': 2, 'n': 3, 'seed': seed, 'forms': forms, 'max_len': 3, 'create': opt}, 3))
     total = ctx.bfs_multi('ceremony', cer, max_states=3000 if q else 30000)
     ctx.note('bounds', {'agreement_cases': len(cases), 'm_of_n': mns, 'ceremony_configs': len(cer),
                         'ceremony_states': total, 'forms': forms})
